@@ -41,6 +41,9 @@ def pexpr(n):
             if (f.attr == "sub" and isinstance(f.value, ast.Name) and f.value.id == "_backslash_non_ascii_re" and len(n.args) == 2
                     and const_str(n.args[0]) == r"\1\\\\"):
                 return f"(PProtect {pexpr(n.args[1])})"
+            if (f.attr == "sub" and isinstance(f.value, ast.Name) and f.value.id == "_line_continuation_re" and len(n.args) == 2
+                    and const_str(n.args[0]) == r"\1"):
+                return f"(PUncontinue {pexpr(n.args[1])})"
             if f.attr == "encode" and len(n.args) == 2 and all(const_str(a) is not None for a in n.args):
                 key = (const_str(n.args[0]), const_str(n.args[1]))
                 c, e = CODECS_ENC.get(key, (1 + abs(hash(key[0])) % 1000, 1 + abs(hash(key[1])) % 1000))
@@ -108,6 +111,12 @@ def translate(src_root):
               and const_str(v.args[0]) == r"(?<!\\)((?:\\\\)*)\\(?=[^\x00-\x7f])")
         if not ok:
             raise Untranslatable("_backslash_non_ascii_re pattern: " + ast.unparse(v))
+    if "_line_continuation_re" in top:
+        v = top["_line_continuation_re"]
+        ok = (isinstance(v, ast.Call) and ast.unparse(v.func) == "re.compile" and len(v.args) == 1 and not v.keywords
+              and const_str(v.args[0]) == r"(?<!\\)((?:\\\\)*)\\" + "\\n")
+        if not ok:
+            raise Untranslatable("_line_continuation_re pattern: " + ast.unparse(v))
     imports = [ast.unparse(n) for n in tree.body if isinstance(n, ast.ImportFrom) and any(a.name == "literal_eval" for a in n.names)]
     if imports != ["from ast import literal_eval"]:
         raise Untranslatable(f"literal_eval is imported as {imports}")
@@ -162,11 +171,11 @@ Section Eq.
   Variable nl : str.
   Variable limit : N.
 
-  Theorem string_source_eq_model : forall tok,
+  Theorem string_source_eq_model : forall tok, lf_only tok ->
     run_branch F dec2float nl limit string_src string_handlers tok = model_string F nl tok.
   Proof.
-    intro tok. unfold run_branch, model_string, string_src, string_handlers, convert. cbn [eval N.eqb andb].
-    destruct (unicode_escape (bsr (protect (normalize nl (removelast (tl tok)))))); reflexivity.
+    intros tok Hlf. unfold run_branch, model_string, string_src, string_handlers, convert. rewrite Hlf. cbn [eval N.eqb andb].
+    destruct (unicode_escape (bsr (protect (normalize nl (uncontinue (removelast (tl tok))))))); reflexivity.
   Qed.
 
   Theorem int_source_eq_model : forall tok,
